@@ -110,7 +110,14 @@ static void scen_c14(int histories) {
         tr("hist %d", h);
         TPMLIB_Terminate(); storage_reset(); TPMLIB_ChooseTPMVersion(TPMLIB_TPM_VERSION_1_2); TPMLIB_ChooseTPMVersion(TPMLIB_TPM_VERSION_2); TPMLIB_RegisterCallbacks(&g_cbs);
         char prof[8192]; int n = 0; int variant = rnd(20); g_c14_attr_profile = 0;
-        if (h % 7 == 5) n = sprintf(prof, "%s", PROFILE_NULL);
+        if (h % 20 == 9) {   /* scripted: every item of a level-2 profile plus ONE item that needs a higher StateFormatLevel than the one named */
+            static const char *C = "0x11f-0x122,0x124,0x126-0x129,0x12b-0x12e,0x130-0x132,0x135,0x137,0x139-0x140,0x142-0x14b,0x14d-0x14e,0x150-0x151,0x153-0x158,0x15b-0x15c,0x160-0x165,0x167-0x16e,0x170,0x172-0x174,0x176-0x178,0x17a-0x182,0x184-0x186,0x188-0x190,0x192,0x197";
+            static const char *A = "rsa,rsa-min-size=1024,tdes,tdes-min-size=128,sha1,hmac,aes,aes-min-size=256,mgf1,keyedhash,xor,sha256,sha384,sha512,null,rsassa,rsaes,rsapss,oaep,ecdsa,ecdh,ecdaa,sm2,ecschnorr,ecmqv,kdf1-sp800-56a,kdf2,kdf1-sp800-108,ecc,ecc-min-size=192,ecc-nist,ecc-bn,ecc-sm2-p256,symcipher,camellia,cmac,ctr,ofb,cbc,cfb,ecb";
+            int lvl = 2 + rnd(7), extra = rnd(5); if (h == 9) { extra = 2; lvl = 2 + rnd(5); }
+            n = sprintf(prof, "{\"Name\":\"custom:s%d\",\"StateFormatLevel\":%d,\"Commands\":\"%s%s\",\"Algorithms\":\"%s%s\"%s}", h, lvl, C, extra == 1 ? ",0x19b" : "",
+                        A, extra == 2 ? ",hmac-min-key-size=128" : extra == 3 ? ",camellia-min-size=128" : "", extra == 4 ? ",\"Attributes\":\"no-sha1-hmac\"" : "");
+        }
+        else if (h % 7 == 5) n = sprintf(prof, "%s", PROFILE_NULL);
         else if (h % 7 == 6) n = sprintf(prof, "%s", PROFILE_DEFAULT_V1);
         else if (h % 3 == 1) {   /* attributes: every command and algorithm stays on so that the probes reach the attribute checks */
             static const char *AT[] = {"no-unpadded-encryption", "no-sha1-signing", "no-sha1-verification", "no-sha1-hmac-creation", "no-sha1-hmac-verification", "no-sha1-hmac", "fips-host", "drbg-continous-test", "pct", "no-ecc-key-derivation"};
@@ -147,7 +154,8 @@ static void scen_c14(int histories) {
                     if (!strcmp(C14_ALGS[a], "ecc") && chance(80)) n += sprintf(prof + n, ",ecc-min-size=%d", eccmin);
                     if (!strcmp(C14_ALGS[a], "aes") && chance(80)) n += sprintf(prof + n, ",aes-min-size=%d", aesmin);
                     if (!strcmp(C14_ALGS[a], "tdes") && chance(60)) n += sprintf(prof + n, ",tdes-min-size=128");
-                    if (!strcmp(C14_ALGS[a], "camellia") && chance(60)) n += sprintf(prof + n, ",camellia-min-size=128"); }
+                    if (!strcmp(C14_ALGS[a], "camellia") && chance(60)) n += sprintf(prof + n, ",camellia-min-size=128");
+                    if (!strcmp(C14_ALGS[a], "hmac") && chance(25)) n += sprintf(prof + n, ",hmac-min-key-size=%d", (int[]){0, 112, 128, 256}[rnd(4)]); }
                 if (variant == 5) n += sprintf(prof + n, ",sha7");                            /* unknown algorithm */
                 if (variant == 6) n += sprintf(prof + n, ",rsa-min-size=12x");
                 n += sprintf(prof + n, "\""); }
